@@ -11,7 +11,8 @@ HARNESS_BIN = 'c05'
 RUN_MODULE = 'Run.C05'
 REPO_BINS = ['sccache']
 THEOREMS = ['C05_spec_ok', 'C05_depinfo_roundtrip', 'C05_depinfo_lossless', 'C05_envdep_roundtrip', 'C05_envdep_determines',
-            'C05_envdep_old_refuted', 'C05_key_injective_modulo_arg_concat', 'C05_args_injective', 'C05_arg_concat_old_refuted',
+            'C05_envdep_old_refuted', 'C05_key_injective_modulo_arg_concat', 'C05_arg_concat_refuted', 'C05_arg_string_is_concat',
+            'C05_args_injective_guarded',
             'C05_order_insensitive', 'C05_excluded_args_unhashed', 'C05_shape_table', 'C05_shape_table_ok_iff',
             'C05_accepted_shape']
 ASSUMPTIONS = [
@@ -21,6 +22,7 @@ ASSUMPTIONS = [
     'dep-info text and arguments are valid UTF-8 (read_to_string / to_string_lossy are the identity there)',
     'the last two components (working directory through std Hash for Path, `rustc -vV` through Hash for str) are treated as one opaque tail: Hash for Path is not an injective encoding',
     '`--target X` with X.json present in the SERVER\'s working directory (ArgTarget::Unsure) is not modelled',
+    'the hashed arguments are concatenated without a delimiter (finding C05-S22, open): the key determines their concatenation only; per-argument injectivity is proved under the guard "same piece lengths"',
 ]
 TRUSTED = [
     'hooks: compiler::rust::{verif_parse_dep_info, verif_parse_env_dep_info, verif_parse_arguments, Rust::verif_new, VERIF_CACHE_VERSION}; util::VERIF_DIGEST_TRACE (thread-local copy of every Digest::update input: the key pre-image of the REAL generate_hash_key)',
@@ -606,7 +608,38 @@ def stats_key(case, out):
         return ['malformed']
 
 
+ARG_EXCLUDED = (b'--extern', b'-L', b'--out-dir')
+
+
+def hashed_pieces(pairs):
+    """the pieces generate_hash_key concatenates, from the (flag, value) pairs the REAL parse_arguments produced"""
+    ps = [(p[0], p[1][0] if p[1] else None) for p in pairs]
+    target_json = any(a == b'--target' and v is not None and os.path.splitext(v.rstrip(b'/'))[1] == b'.json' for a, v in ps)
+    ps = [(a, v) for a, v in ps if a not in ARG_EXCLUDED and not (target_json and a == b'--target')]
+    rest = [(a, v) for a, v in ps if a != b'--cfg']
+    cfgs = sorted(((a, v) for a, v in ps if a == b'--cfg'), key=lambda p: (p[0], (0, b'') if p[1] is None else (1, p[1])))
+    out = []
+    for a, v in rest + cfgs:
+        out.append(a)
+        if v is not None:
+            out.append(v)
+    return out
+
+
+def is_s22(pairs_a, pairs_b):
+    """finding C05-S22, exactly: the hashed-argument lists differ but their concatenations are equal"""
+    pa, pb = hashed_pieces(pairs_a), hashed_pieces(pairs_b)
+    return pa != pb and b''.join(pa) == b''.join(pb)
+
+
 def classify(case, out, v):
+    """keypair: two requests with one key whose hashed arguments differ only in where the boundaries are"""
+    try:
+        if 'got the same key' in v and out[0] == 1 and out[1][0] == b'ok' and out[2][0] == b'ok' \
+                and out[1][1] == out[2][1] and is_s22(out[1][5], out[2][5]):
+            return 'C05-S22'
+    except Exception:
+        pass
     return None
 
 
@@ -680,7 +713,7 @@ def legs(tier):
             nontrivial=lambda c, o: isinstance(o, list) and o[:1] == [b'ok'],
             rule='requests through the real Rust::parse_arguments + generate_hash_key with a mocked rustc (dep-info text, file names) and real '
                  'files; the compared observable is the byte string fed to the digest; non-trivial = a key was produced'),
-        Leg('keypair', lambda rng, t: gen_keypair(rng, 40000 if big else 1200), monitor=mon_keypair, stats=stats_keypair,
+        Leg('keypair', lambda rng, t: gen_keypair(rng, 40000 if big else 1200), monitor=mon_keypair, stats=stats_keypair, classify=classify,
             nontrivial=lambda c, o: isinstance(o, list) and len(o) == 3 and o[1][:1] == [b'ok'] and o[2][:1] == [b'ok'],
             rule='pairs of requests in one working directory that differ by one mutation out of 24 classes; the monitor demands '
                  'different keys for a changed hashed input and equal keys for reorderings / unhashed inputs'),
@@ -715,6 +748,9 @@ def search_on_impl(rep, known):
         n = 0
         for c, o in zip(cases, outs):
             for v in leg.monitor(c, pipeline.parse_out(o)):
+                fid = leg.classify(c, pipeline.parse_out(o), v)
+                if fid and any(k['id'] == fid for k in known):
+                    continue
                 n += 1
                 if n <= 2:
                     rep.violation('property', leg.name, c, v + ' (monitor search on the real implementation after a broken obligation)')
@@ -742,6 +778,7 @@ def extra(rep, known):
     viol = []
     known_ids = {k['id'] for k in known}
     s21 = 0
+    s22 = 0
     labels = {}
     for r in results:
         for st in r['steps']:
@@ -758,9 +795,15 @@ def extra(rep, known):
                     s21 += 1
                     rep.known_hits['C05-S21'] = rep.known_hits.get('C05-S21', 0) + 1
                     continue
+                # finding C05-S22: a hit on an entry stored by a command line whose hashed arguments concatenate alike
+                if (kind in ('outputs', 'false_hit') and st['observed'] == 'hit' and st.get('s22_with') is not None
+                        and 'C05-S22' in known_ids):
+                    s22 += 1
+                    rep.known_hits['C05-S22'] = rep.known_hits.get('C05-S22', 0) + 1
+                    continue
                 viol.append((r, st, kind, text))
     rep.traces += len(results)
-    rep.legs['e2e'] = dict(histories=len(results), steps=nsteps, violations=len(viol), fatal=len(fatal), known_S21=s21)
+    rep.legs['e2e'] = dict(histories=len(results), steps=nsteps, violations=len(viol), fatal=len(fatal), known_S21=s21, known_S22=s22)
     rep.rule.append('e2e: %d histories (4 fixed + PRNG) of 8-17 compiles each on generated crates (module tree, nested module, file name with a '
                     'space, include_str!, env!, option_env!, cfg features, extern rlib); every compile is run directly and through sccache '
                     'with identical command line, environment and working directory; compared: exit status, stdout, stderr, every file in '
@@ -770,6 +813,9 @@ def extra(rep, known):
     if s21:
         k = [x for x in known if x['id'] == 'C05-S21'][0]
         rep.known_lines.append('KNOWN-FINDING: property=C05 %s [C05-S21] (%d e2e steps)' % (k['what'], s21))
+    if s22:
+        k = [x for x in known if x['id'] == 'C05-S22'][0]
+        rep.known_lines.append('KNOWN-FINDING: property=C05 %s [C05-S22] (%d e2e observations with the real rustc)' % (k['what'], s22))
     for r, st, kind, text in viol[:5]:
         rep.violation('property', 'e2e', sx.dumps([('history %d' % r['idx']).encode(), ' '.join(r['labels']).encode(), st['label'].encode()]),
                       'e2e history %d (%s), step %s: %s; argv=%s env=%s' % (r['idx'], ' '.join(r['labels']), st['label'], text,
